@@ -265,15 +265,16 @@ def run_bind(sess):
     import os
     from . import c08_bind as B
     nmax = 2 if sess.tier == 'quick' else 3
-    calls = B.call_shapes(sess.tier)
     sigs = B.signature_shapes(nmax)
     tasks = []
     for sig in sigs:
+        calls = B.call_shapes(sess.tier, sig[0])
         # heavier signatures (many regular parameters) are cut into smaller chunks
         reg = sig[0] - (sig[1] is not None) - (sig[2] is not None)
         step = {0: len(calls), 1: 27, 2: 3}.get(reg, 1)
         for i in range(0, len(calls), step):
             tasks.append((sig, calls[i:i + step]))
+    tasks.sort(key=lambda t: -(t[0][0] - (t[0][1] is not None) - (t[0][2] is not None)) * 100 - max(c[0] + 2 * c[1] + (c[3] or 0) for c in t[1]))      # heavy first
     _SESS = sess
     t0 = time.time()
     workers = int(os.environ.get('VERIF_WORKERS', '12'))
@@ -282,6 +283,7 @@ def run_bind(sess):
     wall = time.time() - t0
     for sig in sigs:
         n, a, k = sig
+        calls = B.call_shapes(sess.tier, n)
         ob = Obligation(f'C08.bind[n={n},args={a},kwargs={k}]', 'ParametersSpec::collect_inline_impl + collect_slow: the slots receive exactly the values the Python call rules prescribe (positional, by name, defaults, *args tuple, **kwargs dict in order), and the call fails exactly when the rules say so (missing, unexpected, or multiple values)',
                         f'signature of {n} parameters with *args at {a} and **kwargs at {k}; kinds required/optional/defaulted, num_positional and num_positional_only solver-chosen; {len(calls)} call shapes: up to {max(c[0] for c in calls)} positional, {max(c[1] for c in calls)} named, *sequence and **mapping absent or of length up to {max(c[2] or 0 for c in calls)}; names and keys solver-chosen among parameter names and two unknown names')
         inst = 0
